@@ -240,7 +240,6 @@ func vStrTokIs(s string, mark, i, kind int, val uint64) bool {
 		return t == fmt.Sprintf("%d", val)
 	case 4:
 		return t == fmt.Sprintf("%v", val != 0)
-	}
 	case 3:
 		return t == strconv.FormatFloat(math.Float64frombits(val), 'g', -1, 32)
 	case 6:
